@@ -355,8 +355,8 @@ def key(a):
 
 
 # ------------------------------------------------------------------ fresh-interpreter reference
-def fresh_digest(a):
-    env = dict(os.environ, PYTHONPATH=VERIF, PYTHONHASHSEED="0")
+def fresh_digest(a, hashseed="0"):
+    env = dict(os.environ, PYTHONPATH=VERIF, PYTHONHASHSEED=hashseed)
     r = subprocess.run([sys.executable, "-m", "mc.checks.c14", "--fresh", key(a)], capture_output=True, text=True, cwd=VERIF, env=env)
     for line in r.stdout.splitlines():
         if line.startswith("DIGEST "):
@@ -396,6 +396,10 @@ def replay(case):
     hist = case["history"]
     import multiprocessing
 
+    if "PYTHONHASHSEED" in case:
+        a, b = (fresh_digest(hist[-1], hs) for hs in case["PYTHONHASHSEED"])
+        return a.get("digest") == b.get("digest"), f"{hist[-1]}: {a} vs {b}"
+
     ctx = multiprocessing.get_context("fork")
     with ctx.Pool(1, maxtasksperchild=1) as pool:
         res = pool.apply(_child, (hist,))
@@ -432,13 +436,15 @@ def run(tier):
         if "digest" not in v:
             print("harness error: fresh reference run failed for", k, v)
             return 2
-    # twice in fresh interpreters: determinism across processes
-    with multiprocessing.get_context("fork").Pool(harness.NPROC) as pool:
-        again = dict(zip([key(a) for a in acts], pool.map(fresh_digest, acts)))
-    for k in fresh:
-        rep.step()
-        if fresh[k].get("digest") != again[k].get("digest"):
-            rep.violation("nondeterministic-across-processes:" + json.loads(k)["op"], {"history": [json.loads(k)]}, f"{k}: {fresh[k]} vs {again[k]}")
+    # again in fresh interpreters with other string-hash seeds: determinism across processes, independence of set / dict-of-set iteration order
+    for hs in (("1", "977") if tier == "quick" else ("1", "977", "31337", "2")):
+        with multiprocessing.get_context("fork").Pool(harness.NPROC) as pool:
+            again = dict(zip([key(a) for a in acts], pool.starmap(fresh_digest, [(a, hs) for a in acts])))
+        for k in fresh:
+            rep.step()
+            if fresh[k].get("digest") != again[k].get("digest"):
+                rep.violation("nondeterministic-across-processes:" + json.loads(k)["op"], {"history": [json.loads(k)], "PYTHONHASHSEED": ["0", hs]},
+                              f"{k}: fresh interpreters with PYTHONHASHSEED=0 and ={hs} disagree (values, dtypes, column or row order): {fresh[k]} vs {again[k]}")
     # histories: singles, all ordered pairs, triples over the state-relevant alphabet, repeated calls
     hists = [[a] for a in acts] + [[a, b] for a in acts for b in acts]
     small = [a for a in acts if a["op"] in ("vectorize", "vectorize_all", "reform", "failing_sim", "reform_function_wrapped", "reform_inplace_then_discard", "reform_file") or (a["op"] == "sim" and a["form"] != "frame")][: (6 if tier == "quick" else 9)]
